@@ -1,4 +1,5 @@
 import H2V.Lemmas.ConnCtlPGoAway
+import H2V.Lemmas.ConnCtlPStore
 /-
   ConnCtlP, part 9 — C15, single steps around a GOAWAY: frames above `max_stream_id` are ignored,
   a received GOAWAY fails the cut-off streams with the peer's reason and forbids new requests, the
@@ -83,44 +84,6 @@ theorem recvGoAwayFrame_increasing (s : Streams) (last : Nat) (reason : Reason) 
     (h : last > s.actions.send.maxStreamId) :
     s.recvGoAwayFrame last reason debug = (s, .error (PErr.libraryGoAway PROTOCOL_ERROR)) := by
   rw [recvGoAwayFrame_eq, if_pos h]
-
-theorem Store.get?_key (st : Store) (k : Nat) (x : Stream) (h : st.get? k = some x) : x.key = k := by
-  unfold Store.get? at h
-  have := List.find?_some h
-  simpa using this
-
-theorem Store.get?_set (st : Store) (x s' : Stream) (k : Nat) (h : st.get? k = some x) (hs : s'.key = k) :
-    (st.set s').get? k = some s' := by
-  unfold Store.set Store.get? at *
-  dsimp only
-  generalize st.slab = l at h ⊢
-  induction l with
-  | nil => simp at h
-  | cons y t ih =>
-    simp only [List.map_cons, List.find?_cons] at h ⊢
-    by_cases hy : (y.key == k) = true
-    · have h1 : (y.key == s'.key) = true := by rw [hs]; exact hy
-      have h2 : (s'.key == k) = true := by simp [hs]
-      simp [h1, h2]
-    · have hy' : (y.key == k) = false := by simpa using hy
-      have h1 : (y.key == s'.key) = false := by rw [hs]; exact hy'
-      simp only [h1, Bool.false_eq_true, if_false, hy'] at h ⊢
-      exact ih h
-
-theorem stream_modStream (s : Streams) (k : Nat) (f : Stream → Stream) (x : Stream) (h : s.store.get? k = some x)
-    (hf : (f x).key = x.key) : (s.modStream k f).store.get? k = some (f x) := by
-  unfold Streams.modStream
-  rw [h]
-  exact Store.get?_set s.store x (f x) k h (by rw [hf]; exact Store.get?_key _ _ _ h)
-
-theorem stream_modStreamW (s : Streams) (k : Nat) (f : Stream → Stream × List String) (x : Stream)
-    (h : s.store.get? k = some x) (hf : (f x).1.key = x.key) : (s.modStreamW k f).store.get? k = some (f x).1 := by
-  unfold Streams.modStreamW
-  rw [h]
-  exact Store.get?_set s.store x (f x).1 k h (by rw [hf]; exact Store.get?_key _ _ _ h)
-
-theorem stream_of_get? (s : Streams) (k : Nat) (x : Stream) (h : s.store.get? k = some x) : s.stream k = x := by
-  unfold Streams.stream; rw [h]; rfl
 
 /-- `Recv::handle_error` on a stream that exists: its state becomes `state.handle_error(err)` -/
 theorem recvHandleError_state (s : Streams) (k : Nat) (err : PErr) (st : Stream) (h : s.store.get? k = some st) :
